@@ -8,7 +8,7 @@ cp -r /repo/gcmpy "$W/gcmpy"; find "$W" -name __pycache__ -prune -exec rm -rf {}
 ( cd "$W" && patch -s -p1 < "$P" ) || { echo "patch failed"; rm -rf "$W"; exit 2; }
 mkdir -p "$W/ev" "$W/rp"
 for id in "$@"; do
-  GCMPY_REPO="$W" VERIF_EVIDENCE_DIR="$W/ev" VERIF_REPLAY_DIR="$W/rp" /verif/check "$id" --tier "${TIER:-quick}" > "$W/$id.log" 2>&1
+  GCMPY_REPO="$W" VERIF_EVIDENCE_DIR="$W/ev" VERIF_REPLAY_DIR="$W/rp" "$(dirname "$0")/../check" "$id" --tier "${TIER:-quick}" > "$W/$id.log" 2>&1
   echo "$id rc=$? $(grep -c '^VIOLATION' "$W/$id.log") violation lines; $(grep -m1 '^VIOLATION\|^OK\|^MACHINERY' "$W/$id.log" | cut -c1-200)"
 done
 rm -rf "$W"
